@@ -399,3 +399,85 @@ Theorem line_lenient_total : forall f, fmt_ok f = true -> opts_listed_ok f = tru
   forall toks, parse f true toks <> Err CannotParse /\ parse f true toks <> Err NoSuchOption.
 Proof. exact line_lenient_no_parse_error. Qed.
 Print Assumptions line_lenient_total.
+
+(* ==== added after the Coq review (REPORT "C02: minor issues" 1 and 4) ====
+   Instances for the two theorems that had none, one instance over a format WITH a base (own and inherited elements), and
+   the boundary of the hypothesis opts_ok_w.  Definitions and proofs: Proofs/ClassifyMoreExamples.v. *)
+From Coq Require Import String.
+From Clikit Require Import Proofs.SpellLemmas Proofs.FmtOkLemmas Proofs.ClassifyMoreExamples.
+Import SpellExamples FmtOkExamples LineExamples ValueExamples MoreExamples.
+
+(* conversion_is_all_that_is_left:  srv add h1 --num=5 http  over  server add <host> [<port:int>] [<files>...]  (U1): forms,
+   number of values and required arguments are fine, so the parse IS the conversion of what the line stores, which fails on
+   "http"; with 8080 instead (W2) it succeeds *)
+Example conversion_is_all_that_is_left_instance :
+  forms_ok F1 U1 = true /\ shape (get_arguments_all F1) (values U1) = true /\ req_ok (get_arguments_all F1) (values U1) = true /\
+  (forall len, parse F1 len (render U1) =
+     do a1 <- set_arguments F1 {| ar_opts := []; ar_args := [] |} (place (get_arguments_all F1) (values U1));
+     set_options F1 a1 (fold_left SpellOpts.raw_event (events U1) [])) /\
+  place (get_arguments_all F1) (values U1) = [(s "host", RStr (s "h1")); (s "port", RStr (s "http"))] /\
+  set_arguments F1 {| ar_opts := []; ar_args := [] |} (place (get_arguments_all F1) (values U1)) = Err ValueError /\
+  (forall len, parse F1 len (render W2) =
+     do a1 <- set_arguments F1 {| ar_opts := []; ar_args := [] |} (place (get_arguments_all F1) (values W2));
+     set_options F1 a1 (fold_left SpellOpts.raw_event (events W2) [])) /\
+  (do a1 <- set_arguments F1 {| ar_opts := []; ar_args := [] |} (place (get_arguments_all F1) (values W2));
+   set_options F1 a1 (fold_left SpellOpts.raw_event (events W2) [])) =
+    Ok {| ar_opts := [(s "num", VInt 5)]; ar_args := [(s "host", VStr (s "h1")); (s "port", VInt 8080)] |}.
+Proof. exact conversion_instance. Qed.
+Print Assumptions conversion_is_all_that_is_left_instance.
+
+(* lenient_extends_strict:  srv add h1 --num=5 -vq 8080 -- -x ; and the converse is false *)
+Example lenient_extends_strict_instance :
+  parse F1 false ok_line =
+    Ok {| ar_opts := [(s "num", VInt 5); (s "verbose", VBool true); (s "quiet", VBool true)];
+          ar_args := [(s "host", VStr (s "h1")); (s "port", VInt 8080); (s "files", VList [VStr (s "-x")])] |} /\
+  parse F1 true ok_line = parse F1 false ok_line /\
+  parse F1 false (Tk ["h1"; "--nope"; "--verbose=1"]%string) = Err NoSuchOption /\
+  parse F1 true (Tk ["h1"; "--nope"; "--verbose=1"]%string) = Ok {| ar_opts := []; ar_args := [(s "host", VStr (s "h1"))] |}.
+Proof. exact MoreExamples.lenient_extends_strict_instance. Qed.
+Print Assumptions lenient_extends_strict_instance.
+
+(* a format WITH a base.  G (C01.parse_spells_reachable_not_vacuous; api_format): OWN command name add, arguments
+   [<port:int>] [<files>...], options --num/-n (value required, int), --tag/-t (multi-valued), --level;  INHERITED command
+   name server/srv, argument <host>, options --verbose/-v, --quiet/-q (flags), --color/-c (value optional).
+   D1 is the well-formed line of C01; M1b = srv add -v --num 5;  U1 = srv add h1 --num=5 http;  U3 = srv add h1 --num=five 8080 *)
+Example classification_over_a_base :
+  f_base G <> None /\ api_format G /\ fmt_ok G = true /\ wf_line G D1 = true /\
+  map fst (get_options_all G) = [s "num"; s "tag"; s "level"; s "verbose"; s "quiet"; s "color"] /\
+  map fst (f_opts G) = [s "num"; s "tag"; s "level"] /\
+  parse G false (insert_tok D1 3 (s "--nope")) = Err NoSuchOption /\
+  parse G false (insert_tok D1 4 (s "-vz")) = Err NoSuchOption /\
+  parse G false (insert_tok D1 0 (s "--quiet=1")) = Err CannotParse /\
+  parse G false (insert_tok D1 2 (s "--num")) = Err CannotParse /\
+  parse G false (render M1b) = Err CannotParse /\
+  (forall len, parse G len (render U1) = Err ValueError) /\
+  (forall len, parse G len (render U3) = Err ValueError) /\
+  (forall len toks k, parse G len toks = Err k -> allowed k /\ (len = true -> k = ValueError)) /\
+  (forall toks, parse G true toks <> Err CannotParse /\ parse G true toks <> Err NoSuchOption).
+Proof. exact over_a_base. Qed.
+Print Assumptions classification_over_a_base.
+
+(* OUTSIDE THE DOMAIN of opts_ok_w / opts_listed_ok - a model / code divergence hidden by the hypothesis.
+   The hypothesis asks that the default of every option whose value is not required be None, a bool, an int or a str
+   (conv_input).  Valid API objects outside it, and the bare option on the line:
+     Option("lvl", "l", OPTIONAL_VALUE | INTEGER, default=0.5), "x --lvl":  model Err (Other 9) in both modes - NOT one of
+        the three documented kinds, so strict_error_kinds_w would be false without its hypothesis;  Python: succeeds with
+        {'lvl': 0} (int(0.5)).
+     Option("lst", None, OPTIONAL_VALUE, default=['a']), "x --lst":  model Err (Other 9);  Python: {'lst': "['a']"}.
+     Option("ratio", "r", OPTIONAL_VALUE | FLOAT, default=0.5), "x --ratio":  model Ok {'ratio': 0.5} = Python; this one
+        the hypothesis excludes without need.
+   The C02 generator uses no such default, so the tie does not see the divergence. *)
+Example strict_error_kinds_w_outside_domain :
+  opt_ok_wb OutsideDomain.o_lvl = false /\ opt_ok_wb OutsideDomain.o_lst = false /\ opt_ok_wb OutsideDomain.o_ratio = false /\
+  opts_listed_ok OutsideDomain.fB = false /\ ~ opts_ok_w OutsideDomain.fB' /\ fmt_ok OutsideDomain.fB = true /\
+  parse OutsideDomain.fB false (T ["x"; "--lvl"]%string) = Err (Other 9) /\
+  parse OutsideDomain.fB true (T ["x"; "--lvl"]%string) = Err (Other 9) /\
+  ~ allowed (Other 9) /\
+  parse OutsideDomain.fC false (T ["x"; "--lst"]%string) = Err (Other 9) /\
+  parse OutsideDomain.fC true (T ["x"; "--lst"]%string) = Err (Other 9) /\
+  parse OutsideDomain.fA false (T ["x"; "--ratio"]%string) =
+    Ok {| ar_opts := [(S_ "ratio", VFloat (S_ "0.5"))]; ar_args := [(S_ "src", VStr (S_ "x"))] |} /\
+  parse OutsideDomain.fB false (T ["x"; "--lvl=7"]%string) =
+    Ok {| ar_opts := [(S_ "lvl", VInt 7)]; ar_args := [(S_ "src", VStr (S_ "x"))] |}.
+Proof. exact OutsideDomain.outside_domain. Qed.
+Print Assumptions strict_error_kinds_w_outside_domain.
